@@ -708,14 +708,18 @@ TRUSTED_BASE = ['coq/C09/Spec.v abstract stream (refinement of BufferedStream is
                 'props/C07.py reference reader (oracle on the implementation)']
 ASSUMPTIONS = ['Options.cEdge = Options.cHeuristic = false (conversion of special predicates is C08)',
                'NUL-free input; maxVar = INT_MAX (readSmodels gives no access to setMaxVar)',
-               'well-formed = text starts with a digit (format probe), numbers may carry a sign / leading zeros, the byte after a symbol-table atom is a separator whatever it is, '
+               'well-formed = coq/C07/SpecG.v: text starts with a digit (format probe), numbers may carry a sign / leading zeros, the byte after a symbol-table atom is a separator unless it is a digit or NUL, '
                'B+/B- directly followed by a line break, the first field of an optimize rule is an ignored value in 0..2^31-1, number of models in 0..2^32-1']
-LEVEL_TEXT = ('Machine-checked proofs (Coq) about an executable model of SmodelsInput over the abstract byte stream: every laid-out '
-              'smodels program (arbitrary whitespace, LF/CRLF, arbitrary non-negative numbers in every field) is accepted iff all fields are in range and then '
-              'delivers exactly the denoted calls; out-of-range weights, bounds, atoms, neg > len and ungated extension rules give an error. '
-              'For EVERY byte list (no layout hypothesis): the delivered calls respect the consumer contract (minimize priority bounded by the input length), '
+LEVEL_TEXT = ('Machine-checked proofs (Coq) about an executable model of SmodelsInput over the abstract byte stream. EXACTNESS for arbitrary byte lists '
+              '(c07_exact): a text is accepted iff it is the rendering of a well-formed, in-range program of the general description coq/C07/SpecG.v '
+              '(number tokens with any whitespace incl. CR/CRLF, optional +, -0, leading zeros, sign-separated numbers; symbol lines with any non-digit non-NUL '
+              'separator and arbitrary name bytes up to the line break; B+/B-/E keywords; number of models; clasp-extension rules and steps; trailing bytes); '
+              'soundness (c07_sound: accepted => such a program exists and the delivered calls are its denotation), completeness (c07_gcomplete), '
+              'denotation independent of the reading (c07_denotes), everything else gives an error (c07_rejects_exact). For the writers\' layout additionally: '
+              'out-of-range weights, bounds, atoms, neg > len and ungated extension rules give an error whatever the magnitude (c07_rejects and instances). '
+              'For EVERY byte list: the delivered calls respect the consumer contract (minimize priority bounded by the input length), '
               'an accepted input leaves no step open, no model loop runs out of fuel, and a reported line lies within 1 .. 1 + line breaks. '
-              'The model is tied to the code by differential correspondence at BUF_SIZE 4096/16/32 and an independent python reference reader.')
+              'The model is tied to the code by differential correspondence at BUF_SIZE 4096/16/32 (incl. general-layout texts) and an independent python reference reader.')
 LEVEL_NOTE = 'Trusted: Coq kernel, extraction+driver (sample cross-checked by vm_compute), harness, translator, abstract stream spec (C09).'
 TECHNIQUE = 'Coq proof about an executable model + differential correspondence with the implementation'
 DESIGN_REF = 'DESIGN.md section 5, C07'
